@@ -25,7 +25,7 @@ LEVEL_TEXT = ("The C09 scenario generator (random coastlines, jets with Courant 
               "checked by a python-side index monitor. Evidence reports the closest approach to each array edge that was actually observed.")
 LEVEL_NOTE = "numba's checker does not flag negative indices (they wrap); the shadow monitor covers those. A dying interpreter during a run counts as a violation."
 RULE = ("case = C09-style world/run with boundary-hugging releases. Non-trivial: some kernel call came within one cell of an array edge; distinct by case parameters.")
-MANDATORY = ["trilinear_calls", "z2s_kernel_calls", "sample3D_nearest_calls", "within_one_cell_of_edge", "scheme_RK2", "scheme_RK4", "subgrid", "boundscheck_active",
+MANDATORY = ["family_c09", "family_c14", "family_c10", "family_c08", "trilinear_calls", "z2s_kernel_calls", "sample3D_nearest_calls", "within_one_cell_of_edge", "scheme_RK2", "scheme_RK4", "subgrid", "boundscheck_active",
              "surface_or_bottom_particles", "diffusion_on"]
 ASSUMPTIONS = ["N >= 2 (with a single level no level pair exists)"]
 BOUNDSCHECK = True
@@ -50,6 +50,11 @@ def gen_cases(tier: str, seed: int) -> list[dict[str, Any]]:
         c["diffusion"] = float(rng.choice([0.0, 100.0, 400.0]))
         c["N"] = int(rng.choice([2, 3]))
         cases.append(c)
+    # other properties' scenario spaces re-run under the sanitizer: C14 (variable bathymetry, N = 4, deactivated particles,
+    # deaths followed by output), C10 (time-reversed multi-file runs), C08 (continuous release, restarts)
+    m = 24 if tier == "quick" else 3000
+    for i in range(m):
+        cases.append(dict(family=["c14", "c10", "c08"][i % 3], seed=seed, idx=i))
     return cases
 
 
@@ -58,14 +63,35 @@ def run_case(case: dict[str, Any], wd: Path) -> dict[str, Any]:
 
     import ladim.ROMS as R  # noqa: PLC0415
 
-    scn, M, box, near_rim = C09.build(case)
-    scn["world"]["N"] = case.get("N", 3)
-    # particles at the surface and at the bottom
-    for k, row in enumerate(scn["run"]["release"]["rows"]):
-        if k % 3 == 0:
-            row[3] = 0.0
-        elif k % 3 == 1:
-            row[3] = 60.0
+    fam = case.get("family", "c09")
+    extra_scns: list[dict[str, Any]] = []
+    if fam == "c09":
+        scn, M, box, near_rim = C09.build(case)
+        scn["world"]["N"] = case.get("N", 3)
+        # particles at the surface and at the bottom
+        for k, row in enumerate(scn["run"]["release"]["rows"]):
+            if k % 3 == 0:
+                row[3] = 0.0
+            elif k % 3 == 1:
+                row[3] = 60.0
+    elif fam == "c14":
+        from vmon.props import C14  # noqa: PLC0415
+
+        b = C14.base_spec(dict(seed=case["seed"], idx=case["idx"]))
+        early = [r["rid"] for r in b["rows"] if r["step"] == 0]
+        scn = C14.make_scn(b, b["rows"], {"2": early[:1]}, 0, {"1": early[1:3]})
+        case = dict(case, scheme=b["scheme"], diffusion=0.0, subgrid=None, imax=20, jmax=16, N=4, flow=b["world"]["vel"]["kind"])
+    elif fam == "c10":
+        from vmon.props import C10  # noqa: PLC0415
+
+        b = C10.build(dict(seed=case["seed"], idx=case["idx"]))
+        scn, _fwd, _start = C10.scenarios(b)
+        case = dict(case, scheme=b["scheme"], diffusion=0.0, subgrid=None, imax=20, jmax=16, N=3, flow="reversed " + b["pattern"]["kind"])
+    else:
+        from vmon.props import C08  # noqa: PLC0415
+
+        scn, par = C08.build(dict(seed=case["seed"], idx=case["idx"]))
+        case = dict(case, scheme=par["scheme"], diffusion=0.0, subgrid=None, imax=22, jmax=18, N=3, flow="c08 jet")
     V: list = []
     sit: dict[str, int] = {}
     cnt: dict[str, int] = {}
@@ -130,9 +156,11 @@ def run_case(case: dict[str, Any], wd: Path) -> dict[str, Any]:
             V.append(C.viol(f"sample3D(nearest) would read element [{int(K[k])},{int(J[k])},{int(I[k])}] outside a field of shape {F.shape}", **desc))
         return None
 
-    scn["run"]["extra_forcing"] = ["temp"]
-    scn["world"]["scalars"] = dict(temp=dict(kind="coded"))
-    scn["run"]["state"] = dict(instance_variables=dict(temp="float"), default_values=dict(temp=0.0))
+    if fam == "c09":
+        scn["run"]["extra_forcing"] = ["temp"]
+        scn["world"]["scalars"] = dict(temp=dict(kind="coded"))
+        scn["run"]["state"] = dict(instance_variables=dict(temp="float"), default_values=dict(temp=0.0))
+    sit["family_" + fam] = 1
     with Hooks() as hk:
         hk.wrap(R, "trilinear", shadow_tri, None)
         hk.wrap(R, "z2s_kernel", shadow_z2s, None)
@@ -142,7 +170,7 @@ def run_case(case: dict[str, Any], wd: Path) -> dict[str, Any]:
     sit[f"scheme_{case['scheme']}"] = 1
     sit["subgrid"] = int(case["subgrid"] is not None)
     sit["diffusion_on"] = int(case["diffusion"] > 0)
-    sit["surface_or_bottom_particles"] = 1
+    sit["surface_or_bottom_particles"] = int(fam == "c09")
     edge = min(margin["min_i"], margin["min_j"], margin["max_i_gap"], margin["max_j_gap"])
     sit["within_one_cell_of_edge"] = int(edge <= 0)
     for k, v in margin.items():
@@ -154,6 +182,6 @@ def run_case(case: dict[str, Any], wd: Path) -> dict[str, Any]:
         else:
             V.append(C.viol(f"run did not complete: {res.exc}", tb=res.tb[-1500:], **desc))
     key = str({k: v for k, v in case.items() if k not in ("land",)})
-    sample = dict(grid=[case["imax"], case["jmax"], case.get("N", 3)], subgrid=case["subgrid"], scheme=case["scheme"], diffusion=case["diffusion"], flow=case["flow"],
+    sample = dict(family=fam, grid=[case["imax"], case["jmax"], case.get("N", 3)], subgrid=case["subgrid"], scheme=case["scheme"], diffusion=case["diffusion"], flow=case["flow"],
                   closest_approach_to_array_edges=margin, kernel_calls={k: sit.get(k, 0) for k in ("trilinear_calls", "z2s_kernel_calls", "sample3D_nearest_calls")})
     return C.result(V[:3], sit, cnt, nontrivial=edge <= 0, key=key, sample=sample)
